@@ -3,9 +3,10 @@ import re
 from tools import common as C, wire
 from tools.gen import lines as L
 
-LEAN_MODULES = ["SCP.C19"]
+LEAN_MODULES = ["SCP.C19", "SCP.LexerLang"]
 THEOREMS = ["SCP.C19." + t for t in """applyRule_lang tryPats_lang rulePass_lang ruleLoop_lang evalInfos_lang wordless_same parse_kind
-constants_complete duration_words_known operator_words months_complete formats_complete rules_subset""".split()]
+constants_complete duration_words_known operator_words months_complete formats_complete rules_subset""".split()] + \
+    ["SCP.LexerLang.lexFull_lang", "SCP.LexerLang.lexText_lang"]
 RULE = ("word-by-word translation en -> every other configured language (currently tr) of: operator-word arithmetic (every alias word of both "
         "languages, chains of 2-5 operands, against the symbolic line too), durations (every keyword spelling, juxtaposed parts, + and -), dates "
         "with every month spelling of both languages in the spellings both languages have (d/m/y, 'd Mon y', 'd Mon'), date +- durations, "
